@@ -1,2 +1,18 @@
+"""C12: rasteriser tiles - RasterTiles.tla (mode E) and filtered vs unfiltered images of the real rasteriser."""
+import solids
+from vlib import Infra
+
+CFG = "SPECIFICATION Spec\nCONSTANTS\n  MaxH = %d\n  MaxF = 3\n  MaxPH = 3\nINVARIANTS Inv\nCHECK_DEADLOCK FALSE\n"
+
+
 def run(ctx):
-    pass
+    quick = ctx.tier == "quick"
+    e = ctx.tlc("raster-E", "pipeline/RasterTiles", CFG % (4 if quick else 5), workers=16, timeout=1200, heap="8g")
+    if e.invariant:
+        raise Infra("RasterTiles violates %s: the tile model is wrong" % e.invariant)
+    ctx.require_clean(e, "raster-E")
+    ctx.add_tlc_counts(e)
+    ctx.stage("raster-model", kind="E", states=e.distinct)
+    solids.judge_stage(ctx, "raster", ["c12-raster", "n=%d" % (40 if quick else 400)], {"panic", "filter"},
+                       judge="pipeline/RasterJudge", keyfn=lambda rec, clause: "Rasterizer.RasterizeSolidFilter:%s%s" % (
+                           clause, ":anisotropic-pixels" if rec.get("aniso") else ""))
